@@ -246,3 +246,18 @@ def jwOp (j : Json) : Json :=
   | _, _ => jErr "jw: bad arguments"
 
 end Tangelo.Driver
+
+namespace Tangelo.Driver
+open Tangelo.Codec Lean
+
+/-- {"op":"refstate","n":n,"ne":k,"spin":null|s,"utd":bool} → occupation vector, JW-mapped vector, gates -/
+def refStateOp (j : Json) : Json :=
+  match getNat? (j.getObjValD "n"), getInt? (j.getObjValD "ne") with
+  | some n, some ne =>
+    let spin := getInt? (j.getObjValD "spin")
+    let occ := RefState.occupation n ne spin
+    let v := RefState.mappedJW occ (getBool j "utd")
+    Json.mkObj [("occ", bitsJ occ), ("jw", bitsJ v), ("gates", gatesJ (RefState.toGates v))]
+  | _, _ => jErr "refstate: bad arguments"
+
+end Tangelo.Driver
